@@ -8,6 +8,7 @@ import (
 	"fmt"
 	"math/big"
 	"math/rand"
+	"os"
 	"sort"
 	"strings"
 	"testing"
@@ -755,10 +756,11 @@ func (g *nnsGen) nextTime() uint64 {
 	switch g.pick(100-wb-wy, wb, wy) {
 	case 1:
 		var cand []uint64
+		far := g.r.Intn(8) == 0 // mostly the boundaries of short-lived names
 		for _, n := range g.registeredNames() {
 			e := g.book.info[n].exp
 			for _, t := range []uint64{e - 1, e, e + 1} {
-				if t > g.now && t < g.now+uint64(12*msYear) {
+				if t > g.now && t < g.now+uint64(12*msYear) && (t < g.now+7200_000 || far) {
 					cand = append(cand, t)
 				}
 			}
@@ -1368,9 +1370,10 @@ func nnsCorpus(prop string) [][]nnsOp {
 		rec("addRecord", "a.com", tA, 0, "5.6.7.8", pU0)
 		rec("addRecord", "y.a.com", tA, 0, "1.2.3.4", pU0)
 		rec("addRecord", "y.a.com", tTXT, 0, "t1", pU0)
-		rec("deleteRecords", "a.com", -250, 0, "", pU0)   // byte(-250) = SOA: faults through updateSoaSerial
-		rec("deleteRecords", "y.a.com", -250, 0, "", pU0) // nothing there
-		rec("deleteRecords", "a.com", -255, 0, "", pU0)   // byte(-255) = A
+		rec("deleteRecords", "a.com", -250, 0, "", pU0)   // out of the byte range -128..255: SETITEM faults
+		rec("deleteRecords", "y.a.com", -250, 0, "", pU0) // the same
+		rec("deleteRecords", "a.com", -255, 0, "", pU0)   // the same (no alias of A)
+		rec("deleteRecords", "a.com", -128, 0, "", pU0)   // byte 128: nothing there, halts
 		rec("deleteRecords", "y.a.com", 1281, 0, "", pU0)
 		rec("deleteRecords", "y.a.com", 0, 0, "", pU0)
 		rec("deleteRecords", "y.a.com", 300, 0, "", pU0)
@@ -1383,6 +1386,16 @@ func nnsCorpus(prop string) [][]nnsOp {
 		rec("addRecord", "a.com", 2, 0, "t1", pU0)
 		add(nnsOp{Kind: "getRecords", Name: "a.com", Typ: -255})
 		add(nnsOp{Kind: "resolve", Name: "com.", Typ: tSOA})
+		out = append(out, h)
+		// 5b: the SOA record of a name registered dead on arrival lies under the
+		// enclosing token; deleteRecords cannot reach it (6 refused, -250 out of range)
+		start()
+		reg("a.com", pU0, 3600, pU0)
+		reg("x.a.com", pU0, 0, pU0)
+		add(nnsOp{Kind: "getAllRecords", Name: "x.a.com"})
+		rec("deleteRecords", "x.a.com", tSOA, 0, "", pU0)
+		rec("deleteRecords", "x.a.com", -250, 0, "", pU0)
+		add(nnsOp{Kind: "getAllRecords", Name: "x.a.com"})
 		out = append(out, h)
 		// 6: SOA data that updateSoaSerial cannot parse
 		start()
@@ -1612,8 +1625,21 @@ func (m *nnsMon) step(o nnsOp, ob *nnsObs) {
 				m.violate("C12: setRecord succeeded on an id the spec does not have: %s", o.String())
 			}
 		case "deleteRecords":
-			if typByte(o.Typ) == tSOA {
-				m.violate("C12: deleteRecords removed an SOA type: %s", o.String())
+			if m.prev != nil {
+				soa := func(ob *nnsObs) int {
+					n := 0
+					if v, ok := m.rd(ob, "getAllRecords", o.Name, 0); ok && v.ok {
+						for _, rc := range v.recs {
+							if rc[1] == "6" {
+								n++
+							}
+						}
+					}
+					return n
+				}
+				if soa(ob) < soa(m.prev) {
+					m.violate("C12: deleteRecords removed an SOA record: %s", o.String())
+				}
 			}
 			k := rkeyOf(tokPre, o.Name, o.Typ)
 			delete(m.recs, k)
@@ -1761,11 +1787,7 @@ func (m *nnsMon) step(o nnsOp, ob *nnsObs) {
 					m.violate("C12: getRecords(%s) answers although the token %s is not live", r.Name, tok)
 				}
 				if live && !v.ok {
-					if nnsLevel(nm) >= nnsLevel(tok)+2 {
-						m.deepSub++ // getRecords/getAllRecords refuse names two levels below their token (reported)
-					} else {
-						m.violate("C12: getRecords(%s,%d) faults although the token %s is live", r.Name, r.Typ, tok)
-					}
+					m.violate("C12: getRecords(%s,%d) faults although the token %s is live", r.Name, r.Typ, tok)
 				}
 				if v.ok && r.Typ != tSOA {
 					k := rkeyOf(tok, nm, r.Typ)
@@ -1779,11 +1801,7 @@ func (m *nnsMon) step(o nnsOp, ob *nnsObs) {
 					seen := map[string]bool{}
 					for _, d := range v.strs {
 						if seen[d] {
-							if m.dupBy[k] {
-								m.st.AddKnown("C12/set-duplicate")
-							} else {
-								m.violate("C12: duplicate value %q for %s type %d not made by setRecord", d, r.Name, r.Typ)
-							}
+							m.violate("C12: duplicate value %q for %s type %d (made by setRecord: %v)", d, r.Name, r.Typ, m.dupBy[k])
 						}
 						seen[d] = true
 					}
@@ -1798,6 +1816,12 @@ func (m *nnsMon) step(o nnsOp, ob *nnsObs) {
 			case "getAllRecords":
 				if !live && v.ok {
 					m.violate("C12: getAllRecords(%s) answers although the token is not live", r.Name)
+				}
+				if live && !v.ok {
+					m.violate("C12: getAllRecords(%s) faults although the token %s is live", r.Name, tok)
+				}
+				if nnsLevel(nm) >= nnsLevel(tok)+2 && v.ok {
+					m.deepSub++ // names two or more levels below their token are readable (fix 8bee9c1)
 				}
 				if v.ok {
 					// same content as the per-type lists, ordered by type then id
@@ -1914,6 +1938,13 @@ func runNNSFamily(t *testing.T, prop string) {
 			}
 			ob := n.exec(lit, o, readers)
 			mon.step(o, &ob)
+			if os.Getenv("VERIF_NNS_TRACE") != "" && hidx < 0 {
+				ga := ""
+				if v, ok := mon.rd(&ob, "getAllRecords", o.Name, 0); ok {
+					ga = fmt.Sprintf(" getAllRecords=%v %q", v.ok, v.recs)
+				}
+				fmt.Printf("[%d] %s -> halt=%v ret=%s %s%s\n", hidx, o.String(), ob.halt, ob.ret, ob.fault, ga)
+			}
 			steps = append(steps, fmt.Sprintf("((%s, %s), %s)", lit.ctx(o), lit.opt(o), lit.obs(ob, prevVec)))
 			prevVec = ob.vec
 			st.Evaluations++
@@ -1967,7 +1998,7 @@ func runNNSFamily(t *testing.T, prop string) {
 	st.DistinctNontrivial = len(distinct)
 	st.Extra["readers_per_step"] = len(readers)
 	st.Extra["fault_reasons"] = reasons
-	st.Extra["deep_subname_reader_faults"] = deep
+	st.Extra["deep_subname_reads"] = deep
 
 	var hd strings.Builder
 	hd.WriteString("From Verif Require Import Base.Prelude Model.NNS.\nLocal Open Scope Z_scope.\n")
